@@ -382,6 +382,69 @@ pub fn run(prop: &str, tier: &str, replay: Option<&str>) -> i32 {
         });
         rep.add(sec);
     }
+    // 1c. generation: a key generated for an algorithm IS a key of that algorithm (and of that size, where the size is asked for)
+    {
+        let mut cases: Vec<(Alg, u8)> = algs.iter().map(|a| (*a, 0u8)).collect();
+        if cfg!(feature = "aws") {
+            for a in algs.iter().filter(|a| a.is_rsa()) {
+                cases.push((*a, 1));
+                if thorough {
+                    cases.push((*a, 2));
+                    cases.push((*a, 3));
+                }
+            }
+        }
+        let sec = Section::new("keys/generated say the requested algorithm", "KeyPair::generate_for for every algorithm of this back end (and generate_rsa_for for every RSA algorithm x size, where the back end generates RSA keys): refused, or algorithm() is the requested one, is_compatible agrees, the public key is what OpenSSL derives from the serialised private key, the SubjectPublicKeyInfo parses back, and a signature verifies under the requested algorithm");
+        run::sweep_cases(&sec, &cases, &|c| format!("generate {} door {}", c.0.name(), c.1), &|c| {
+            let mut out = Outcome::default();
+            out.transitions = 1;
+            let want = rc_alg(c.0).unwrap();
+            let r = guarded(|| match c.1 {
+                0 => KeyPair::generate_for(want),
+                #[cfg(feature = "aws")]
+                1 => KeyPair::generate_rsa_for(want, rcgen::RsaKeySize::_2048),
+                #[cfg(feature = "aws")]
+                2 => KeyPair::generate_rsa_for(want, rcgen::RsaKeySize::_3072),
+                #[cfg(feature = "aws")]
+                _ => KeyPair::generate_rsa_for(want, rcgen::RsaKeySize::_4096),
+                #[cfg(not(feature = "aws"))]
+                _ => KeyPair::generate_for(want),
+            });
+            let mut f = Vec::new();
+            match r {
+                Err(p) => f.push(Finding::new("KEY-LOAD-PANIC", "generate", p)),
+                Ok(Err(_)) => {}
+                Ok(Ok(k)) => {
+                    out.digest = c.0 as u64 + 1;
+                    if alg_of(k.algorithm()) != Some(c.0) || !k.is_compatible(want) {
+                        f.push(Finding::new("KEY-ALGORITHM", "generate", format!("generated for {} but algorithm() is {:?} (is_compatible with the requested one: {})", c.0.name(), k.algorithm(), k.is_compatible(want))));
+                    }
+                    let bits_want = match c.1 {
+                        2 => Some(3072),
+                        3 => Some(4096),
+                        _ if c.0.is_rsa() => Some(2048),
+                        _ => None,
+                    };
+                    match ossl_private(&k.serialize_der()) {
+                        Ok(pk) => {
+                            if let (Some(w), Ok(r)) = (bits_want, pk.rsa()) {
+                                if r.n().num_bits() != w {
+                                    f.push(Finding::new("KEY-ALGORITHM", "generate", format!("asked for {} bits, the key has {}", w, r.n().num_bits())));
+                                }
+                            }
+                            let spki = pk.public_key_to_der().unwrap();
+                            let raw = spki_raw_pub(&spki);
+                            check_loaded(&k, c.0, &spki, &raw, "generate", &mut f);
+                        }
+                        Err(e) => f.push(Finding::new("KEY-PUBLIC-KEY", "generate", format!("OpenSSL cannot read the serialised generated key: {}", e))),
+                    }
+                }
+            }
+            out.findings = f;
+            out
+        });
+        rep.add(sec);
+    }
     // 2. serialise / load cycles: load -> serialize_der -> load -> serialize_pem -> load through every entry point
     {
         let mut keys: Vec<(String, KeyPair, Alg, Vec<u8>, Vec<u8>, KeyFormat)> = Vec::new();
